@@ -83,6 +83,7 @@ UNVERIFIED = {
     "C07": ["that the expression state handed back to restore_stack_frame re-runs the same step (eval_expr mutates `expr_state` only in arms that cannot fail; not stated as a contract)",
             "check_string and the built-in dispatch (eval_built_in_call / eval_built_in_method_call) are used through contracts whose builder sites are proved in unit restore",
             "continuation entries a step pushed to exprs_to_eval before failing stay there (If/Match/While arms of eval_expr): harmless for a repeated :resume, not covered"],
+    "C04": ["of `x += e` / `x -= e` the step function eval_assign_update is under contract here: the name reads as the wrapped sum afterwards, given that Bindings::set_existing makes the name read as the value it is given (Bindings::get / set_existing walk the blocks innermost first; their bodies are not under contract)"],
     "C13": ["that `==` on Value is Value_::eq (derived PartialEq through Rc) — Value_::eq itself is under contract in unit valeq"],
     "C02": ["the operand-count preconditions (eval_expr evaluates and pushes the operands before the step) are assumed of the caller"],
 }
@@ -118,6 +119,9 @@ WITNESSES = [
                {"what": "`+=` on a String parameter inside a loop in a callee", "session": ["fun tally(label, xs) { for x in xs { label += x } label }", "tally(\"total\", [1, 2, 3])"], "resumes": 3},
                {"what": "`-=` on an unbound variable", "session": ["fun dec() { nosuch -= 1 }", "dec()"], "resumes": 3}]},
     _resume("field access on a non-struct", ["1.field"], r"steps\.eval_dot_access\."),
+    {"match": r"steps\.eval_assign_update\.", "kind": "run", "props": ["C04"], "timeout": 30,
+     "input": "fun f(x: Int): Int {\n  let y = 7\n  if True {\n    let x = 100\n    let y = 100\n    x += 5\n    y -= 5\n    println(string_repr(x) ^ \" \" ^ string_repr(y))\n    for x in [9223372036854775807] { x += 1  println(string_repr(x)) }\n  }\n  println(string_repr(x) ^ \" \" ^ string_repr(y))\n  x\n}\nf(7)\nlet t = 1\nt += 2\nprintln(string_repr(t))\n",
+     "expect": {"stdout": "105 95\n-9223372036854775808\n7 7\n3"}, "note": "`+=` / `-=` on a name that shadows an outer binding update the innermost binding, which is the one a later read finds"},
     {"match": r"steps\.arm_Return\.", "kind": "json-session", "props": ["C06"],
      "input": ["if True { let leaked_local = 1 return 5 }", "leaked_local"],
      "expect": {"py": "('No such variable' not in out) and 'a block-local variable is still visible after `return` left the block: ' + out[-300:] or ''"},
@@ -257,7 +261,14 @@ impl Bindings {
     pub fn set_existing(&mut self, sym: &Symbol, value: Value)
         requires b_has(*old(self), sym.interned_id),
         ensures final(self).block_bindings@.len() == old(self).block_bindings@.len(),
+            b_get(*final(self), sym.interned_id) == Some(value),
     { unimplemented!() }
+}
+/// what Bindings::get finds for the name: the value in the innermost block that binds it (ghost)
+pub uninterp spec fn b_get(b: Bindings, id: InternedSymbolId) -> Option<Value>;
+/// i64::wrapping_add / wrapping_sub as integers
+pub open spec fn wrap64(x: int) -> int {
+    if x > i64::MAX { x - 0x1_0000_0000_0000_0000 } else if x < i64::MIN { x + 0x1_0000_0000_0000_0000 } else { x }
 }
 pub uninterp spec fn get_var_result(sym: &Symbol, env: Env) -> Option<Value>;
 #[verifier::external_body]
@@ -528,7 +539,12 @@ def build(tier):
     AU_RULES = BASE_RULES + [
         rw.simple("R2", r"env\.pop_value\(\)\.expect\(&format!\(\s*\"[^\"]*\",\s*op\.as_src\(\)\s*\)\)", "vexpect_value(env.pop_value())"),
     ]
-    u.add_fn(EV, "eval_assign_update", rules=AU_RULES, contract=restore_contract("1", extra_ensures=[("blocks_and_pending_untouched", "blocks(*final(env)) == blocks(*old(env)) && pend(*final(env)) =~= pend(*old(env))", {"C06"})], props={"C07", "C02", "C06"},
+    u.add_fn(EV, "eval_assign_update", rules=AU_RULES, contract=restore_contract("1", extra_ensures=[("blocks_and_pending_untouched", "blocks(*final(env)) == blocks(*old(env)) && pend(*final(env)) =~= pend(*old(env))", {"C06"}),
+        # C04: `x += e` / `x -= e` leave x (what a later read of the name finds) equal to what `x = x + e` / `x = x - e` would give
+        ("the_variable_reads_as_the_wrapped_sum_afterwards",
+         "r is Ok ==> (get_var_result(variable, *old(env)) matches Some(v0) && *v0.0 matches Value_::Int(a) && *vals(*old(env)).last().0 matches Value_::Int(b)"
+         " && b_get(top(*final(env)).bindings, variable.interned_id) matches Some(v1)"
+         " && *v1.0 == Value_::Int(wrap64(if op is Add { a + b } else { a - b }) as i64))", {"C04"})], props={"C07", "C02", "C06"},
         extra_requires=[("variable_is_a_local_when_it_is_an_int", "get_var_result(variable, *old(env)) matches Some(v) && *v.0 is Int ==> b_has(top(*old(env)).bindings, variable.interned_id)")]))
     LET_RULES = BASE_RULES + [
         rw.simple("R5", r"for \(symbol, item\) in symbols\.iter\(\)\.zip\(items\) \{", "let mut __i1: usize = 0; while __i1 < symbols.len() && __i1 < items.len() { let symbol = &symbols[__i1]; let item = &items[__i1]; __i1 += 1;"),
